@@ -349,7 +349,7 @@ theorem hWrite_st (s : State) (h : Handle) (p : Bytes) :
   unfold hWrite; split <;> simp_all
 
 theorem hWriteAt_st (s : State) (h : Handle) (p : Bytes) (off : Int) :
-    (hWriteAt s h p off).1 = if off < 0 then s else match hBlob s h with
+    (hWriteAt s h p off).1 = if off < 0 ∨ off.toNat + p.length > maxInt then s else match hBlob s h with
       | none => s
       | some b => setData s h.key b (writeAt b.data p off.toNat) := by
   unfold hWriteAt
